@@ -260,6 +260,8 @@ func main() {
 	add("extTagUnread", v, ok)
 	v, ok = codec.cmpLit("Buffer.WriteString", "len(data)", token.GTR)
 	add("str1Max", v, ok)
+	v, ok = codec.varInit("skipPending")
+	add("skipPendingMarker", v, ok)
 	// the marker written for extended tags: `(15 << 4) | ty`
 	if fd := codec.funcDecl("Buffer.WriteHead"); fd != nil {
 		found := false
